@@ -56,7 +56,7 @@ def run(ctx):
     g = ctx.tlc("MigrationGen", "MigrationGen.cfg", timeout=3000, constants=dict(OutFile=json.dumps(cases)))
     ncases = sum(1 for _ in open(cases))
     outs, st = ctx.shards("c16-migrate", cases, os.path.join(ctx.work, "m.trace"))
-    couts, cst = ctx.shards("c16-migrate", "none", os.path.join(ctx.work, "c.trace"), extra=["-corpus", "-mutations", "20" if q else "400"])
+    couts, cst = ctx.shards("c16-migrate", "none", os.path.join(ctx.work, "c.trace"), extra=["-corpus", "-mutations", "20" if q else "4000"])
     drift = sum(s.get("drift", 0) for s in st)
     drift_ex = [e for s in st for e in (s.get("drift_examples") or [])][:3]
     if drift:
